@@ -1,6 +1,6 @@
 // This file implements functionality from FIPS 204 section 7.5 `NTT` and `invNTT`
 
-use crate::helpers::{full_reduce32, mont_reduce, ZETA_TABLE_MONT};
+use crate::helpers::{full_reduce32, mont_reduce, partial_reduce32, ZETA_TABLE_MONT};
 use crate::types::{R, T};
 use crate::Q;
 
@@ -90,7 +90,10 @@ pub(crate) fn inv_ntt<const KL: usize>(w_hat: &[T; KL]) -> [R; KL] {
     // 1: for j from 0 to 255 do
     // 2: w_j ← w_hat[j]
     // 3: end for
-    let mut w_out: [R; KL] = core::array::from_fn(|x| R(core::array::from_fn(|n| w_hat[x].0[n])));
+    // The input may be an unreduced accumulation (e.g. from `mat_vec_mul()`); reduce on the way in
+    // so that the additions below, which double the magnitude per layer, cannot overflow an i32
+    let mut w_out: [R; KL] =
+        core::array::from_fn(|x| R(core::array::from_fn(|n| partial_reduce32(w_hat[x].0[n]))));
 
     // for each element of w_hat
     for w_poly in &mut w_out {
